@@ -4,7 +4,7 @@ import os
 import re
 
 from vlib import mirutil
-from vlib.facts import walk, peel, place_path, pat_variants, pat_alternatives, CheckError, REPO
+from vlib.facts import walk, peel, place_path, pat_variants, pat_alternatives, CheckError, REPO, uncond_before, sp_before
 from vlib.report import RuleResult
 from rules.nopanic import snippet
 
@@ -259,6 +259,41 @@ def emit_mapped(F, kinds=KINDS, names=False):
                 r.violate("%s | export %s" % (fn["path"], variant), F.loc(fn, c),
                           "exported %s index is emitted %s: after an edit that shifts the %s index space the export designates a different %s" % (
                               variant, "through the %s map" % sorted(got) if got else "raw (export.index)", need, variant.lower()))
+    # 1b. an export sink that is NOT inside an arm of the kind dispatch: the index it emits must have been assigned from a
+    #     lookup in a map that was itself selected by the kind dispatch (`let m = match kind {Func => Some(&func_map), ..}`)
+    in_arms = set()
+    for a in em["arms"]:
+        for c in walk(a["body"]):
+            if c.get("k") == "MethodCall" and (c.get("inst") or "").endswith("ExportSection::export"):
+                in_arms.add(id(c))
+    for c in walk(body):
+        if c.get("k") == "MethodCall" and (c.get("inst") or "").endswith("ExportSection::export") and id(c) not in in_arms:
+            n_sinks += 1
+            arm_kind = {}
+            for a in em["arms"]:
+                vs, wild = pat_variants(a["pat"])
+                ks = {kind_of_expr(x, maps) for x in walk(a["body"]) if x.get("k") == "Path"} - {None}
+                for (_, v) in vs:
+                    arm_kind[v] = ks
+            sel_hid = None
+            for st in walk(body):
+                if st.get("k") == "Let" and st.get("init") is em and st["pat"].get("k") == "Binding":
+                    sel_hid = st["pat"]["hid"]
+            idx_place = place_path(c["args"][2])
+            assigned = False
+            for asg in walk(body):
+                if asg.get("k") == "Assign" and place_path(asg["lhs"]) == idx_place and idx_place:
+                    gets = [g for g in walk(asg["rhs"]) if g.get("k") == "MethodCall" and g["method"] == "get"]
+                    if gets and sp_before(asg, c):
+                        assigned = True
+            for variant, need in kind_of_variant.items():
+                if need not in kinds:
+                    continue
+                ok = sel_hid is not None and assigned and arm_kind.get(variant) == {need}
+                r.ob(ok, {"sink": "export " + variant + " (dispatch hoisted out of the sink)", "map_selected": sorted(arm_kind.get(variant) or [])})
+                if not ok:
+                    r.violate("%s | export %s" % (fn["path"], variant), F.loc(fn, c),
+                              "exported %s index is emitted outside the kind dispatch and is not provably remapped through the %s map" % (variant, need))
     # 2. start
     if "func" in kinds:
         ok = False
@@ -299,30 +334,51 @@ def emit_mapped(F, kinds=KINDS, names=False):
             r.ob(False, {"sink": "raw const_expr copy", "expr": snip})
             r.violate("%s | raw const_expr | %s" % (fn["path"], snip), F.loc(fn, n),
                       "a stored wasmparser::ConstExpr is re-encoded byte-for-byte (`%s`): any ref.func / global.get inside keeps its pre-edit index" % snip)
-    # 5. global initialisers and data offsets: fix_id_mapping precedes to_wasmencoder_type in the same block
+    # 5. global initialisers and data offsets: on every path to the sink, InitInstr::fix_id_mapping has been applied to
+    #    every instruction of the very expression that is converted (to_wasmencoder_type) for the sink, before the conversion
     for sink_name, label in (("GlobalSection::global", "global initialiser"), ("DataSection::active", "active data offset")):
         for c in walk(body):
             if c.get("k") == "MethodCall" and (c.get("inst") or "").endswith(sink_name):
                 n_sinks += 1
-                # enclosing arm/block: find smallest Block containing c that also contains a fix_id_mapping call before it
-                best = None
-                for blk in walk(body):
-                    if blk.get("k") == "Block" and any(x is c for x in walk(blk)):
-                        best = blk  # walk is pre-order: the last one found is the innermost
-                ok = False
-                cur = best
-                # widen until a fix_id_mapping is found or function body reached
-                chain = [blk for blk in walk(body) if blk.get("k") == "Block" and any(x is c for x in walk(blk))]
-                for blk in reversed(chain):
-                    fixes = [x for x in walk(blk) if x.get("k") == "MethodCall" and x["method"] == "fix_id_mapping"]
-                    if fixes:
-                        ok = all(x["sp"][0] < c["sp"][0] or (x["sp"][0] == c["sp"][0] and x["sp"][1] < c["sp"][1]) for x in fixes)
+                convs = []  # conversion nodes whose value reaches the sink
+                for a_ in c["args"]:
+                    for x in walk(a_):
+                        if x.get("k") == "MethodCall" and x["method"] == "to_wasmencoder_type":
+                            convs.append(x)
+                        if x.get("k") == "Path" and x.get("res", {}).get("r") == "local":
+                            for st in walk(body):
+                                if st.get("k") == "Let" and st["pat"].get("hid") == x["res"]["hid"] and "init" in st:
+                                    convs += [y for y in walk(st["init"]) if y.get("k") == "MethodCall" and y["method"] == "to_wasmencoder_type"]
+                ok, why = bool(convs), "no InitExpr conversion feeds the sink"
+                for K in convs:
+                    base = peel(K["recv"])
+                    root_hid = None
+                    bb = base
+                    while isinstance(bb, dict) and bb.get("k") in ("Field", "Index", "Unary", "AddrOf", "MethodCall"):
+                        bb = bb.get("base") or bb.get("a") or bb.get("recv")
+                    if isinstance(bb, dict) and bb.get("k") == "Path":
+                        root_hid = bb.get("res", {}).get("hid")
+                    fixes = []
+                    for loop in walk(body):
+                        if loop.get("k") == "Match" and loop.get("src") == "ForLoopDesugar" and root_hid is not None and \
+                                any(x.get("k") == "Path" and x.get("res", {}).get("hid") == root_hid for x in walk(loop["scrut"])):
+                            fixes += [x for x in walk(loop) if x.get("k") == "MethodCall" and x["method"] == "fix_id_mapping"]
+                    if not fixes:
+                        ok, why = False, "fix_id_mapping is never applied to the converted expression"
                         break
-                    if len([x for x in walk(blk) if x.get("k") == "MethodCall" and (x.get("inst") or "").endswith(sink_name)]) > 1:
+                    good = False
+                    for f_ in fixes:
+                        g_ok, g_why = uncond_before(body, f_, K)
+                        if g_ok:
+                            good = True
+                        else:
+                            why = "fix_id_mapping (line %d) %s the conversion to the encoder form (line %d)" % (f_["sp"][0], g_why, K["sp"][0])
+                    if not good:
+                        ok = False
                         break
-                r.ob(ok, {"sink": label, "fix_id_mapping_before": ok})
+                r.ob(ok, {"sink": label, "fix_id_mapping_dominates_conversion": ok})
                 if not ok:
-                    r.violate("%s | %s" % (fn["path"], label), F.loc(fn, c), "%s is emitted without InitInstr::fix_id_mapping being applied first" % label)
+                    r.violate("%s | %s" % (fn["path"], label), F.loc(fn, c), "%s is emitted without InitInstr::fix_id_mapping having been applied first on every path: %s" % (label, why))
                 if sink_name == "DataSection::active" and "memory" in kinds:
                     got = set()
                     a0 = peel(c["args"][0])
@@ -357,7 +413,7 @@ def emit_mapped(F, kinds=KINDS, names=False):
             # a fix_op_id_mapping call on the same root variable earlier in h
             fixes = [x for x in walk(h["body"]) if x.get("k") == "Call" and (x.get("callee") or "").endswith("fix_op_id_mapping")
                      and (place_path(x["args"][0]) or "").split(".")[0] == root
-                     and (x["sp"][0], x["sp"][1]) < (cc["sp"][0], cc["sp"][1])]
+                     and uncond_before(h["body"], x, cc)[0]]
             ok = bool(fixes)
             r.ob(ok, {"sink": "instruction via %s(%s)" % (g["name"], opnd), "fix_op_id_mapping_before": ok})
             if not ok:
@@ -619,6 +675,32 @@ def tag_emit(F):
     return r
 
 
+def _self_rooted(fn, lhs):
+    """the assigned place lives in state owned by `self`: rooted at self, or at a binding introduced by iterating
+    (iter_mut / &mut) over a self field"""
+    e = lhs
+    while isinstance(e, dict) and e.get("k") in ("Field", "Index", "Unary", "AddrOf"):
+        e = e.get("base") or e.get("a")
+    if not (isinstance(e, dict) and e.get("k") == "Path" and e.get("res", {}).get("r") == "local"):
+        return False
+    if e["res"].get("name") == "self":
+        return True
+    hid = e["res"].get("hid")
+    for m in walk(fn["body"]):
+        if m.get("k") == "Match" and m.get("src") == "ForLoopDesugar":
+            binds = set()
+            for lp in walk(m["arms"][0]["body"]):
+                if lp.get("k") == "Match" and lp is not m:
+                    for arm in lp["arms"]:
+                        if arm["pat"].get("variant") == "Some":
+                            binds |= {b["hid"] for b in walk(arm["pat"]) if b.get("k") == "Binding"}
+                    break
+            if hid in binds and any(x.get("k") == "Path" and x.get("res", {}).get("name") == "self" for x in walk(m["scrut"])) \
+                    and any(x.get("k") == "MethodCall" and x["method"] in ("iter_mut", "values_mut") for x in walk(m["scrut"])):
+                return True
+    return False
+
+
 def idempotent_encode(F):
     r = RuleResult("R-IDEMPOTENT-ENCODE",
                    "encode_internal may remap stored indices in place only if it also renormalises the ID source the map is derived from and resets the recalculate flags (otherwise a second encode applies a non-identity map to already-remapped indices)")
@@ -629,6 +711,7 @@ def idempotent_encode(F):
     r.count("encode_reachable_fns", len(seen))
     # in-place mappers applied to self-owned state
     inplace = []
+    maps_enc = mapping_locals(fn, F)
     for c in walk(fn["body"]):
         if c.get("k") == "Call" and (c.get("callee") or "").endswith("fix_op_id_mapping"):
             inplace.append(("code operators", c))
@@ -636,6 +719,9 @@ def idempotent_encode(F):
             inplace.append(("stored init expressions", c))
         if c.get("k") == "Assign" and (place_path(c["lhs"]) or "") == "self.start":
             inplace.append(("self.start", c))
+        elif c.get("k") == "Assign" and _self_rooted(fn, c["lhs"]) and (mapping_lookups(c["rhs"], maps_enc) or any(
+                g.get("k") == "MethodCall" and g["method"] == "get" and _is_u32_map(g.get("recv_ty")) for g in walk(c["rhs"]))):
+            inplace.append(("stored field `%s`" % (place_path(c["lhs"]) or "?"), c))
     # renormalisation evidence anywhere in the encode call graph
     id_fields = ("func_id", "import_fn_id", "global_id", "import_global_id", "mem_id", "import_mem_id")
     renorm = set()
@@ -653,12 +739,97 @@ def idempotent_encode(F):
                     flag_reset.add(pp)
             if n.get("k") == "MethodCall" and n["method"] == "set_id":
                 renorm.add("set_id")
+    seen_what = set()
     for what, c in inplace:
         ok = bool(renorm) and bool(flag_reset)
         r.ob(ok, {"in_place_remap_of": what, "id_sources_renormalised": sorted(renorm), "flags_reset": sorted(flag_reset)})
-    if inplace and not (renorm and flag_reset):
-        r.violate("%s | in-place remap without renormalisation" % fn["path"], F.loc(fn, inplace[0][1]),
-                  "encode_internal rewrites %s in place through the old→new maps but never renormalises the stored IDs (%s) nor resets recalculate_ids: a second encode() re-applies a non-identity map to already-remapped indices" % (
-                      ", ".join(sorted({w for w, _ in inplace})), "/".join(id_fields)))
+        if not ok and what not in seen_what:
+            seen_what.add(what)
+            r.violate("%s | in-place remap without renormalisation | %s" % (fn["path"], what), F.loc(fn, c),
+                      "encode_internal rewrites %s in place through the old→new maps but never renormalises the stored IDs (%s) nor resets recalculate_ids: a second encode() re-applies a non-identity map to already-remapped indices" % (
+                          what, "/".join(id_fields)))
     r.count("inplace_remap_sites", len(inplace))
     return r
+
+
+# ---------------------------------------------------------------- R-LOOP-SCRATCH
+ACCUM = ("push", "extend", "append", "insert", "push_str", "extend_from_slice", "push_back")
+RESET = ("clear", "truncate", "drain", "take")
+
+
+def loop_scratch(F, roots=("encode_internal", "encode_comp")):
+    """A scratch buffer that lives across iterations of an emission loop (declared outside the loop), is filled inside
+    the loop and is also *consumed inside the same loop* (its contents are handed to a section builder per iteration)
+    must be emptied in every iteration before it is filled — otherwise iteration n emits the items of iterations 1..n."""
+    r = RuleResult("R-LOOP-SCRATCH",
+                   "in the emission loops of the encoders, a buffer declared outside a loop, filled inside it and read inside it (per-iteration scratch) is reset (clear/truncate/reassign) on every iteration before its first fill; accumulators only read after the loop are exempt")
+    n_scratch = 0
+    n_loops = 0
+    for fn in F.fns:
+        if fn.get("body") is None or not (fn["name"] in roots or any(fn["path"].find("::%s::" % x) >= 0 for x in roots)):
+            continue
+        r.analysed.append(fn["path"])
+        lets = {}
+        for st in walk(fn["body"]):
+            if st.get("k") == "Let" and st["pat"].get("k") == "Binding":
+                lets[st["pat"]["hid"]] = st
+        for m in walk(fn["body"]):
+            if not (m.get("k") == "Match" and m.get("src") == "ForLoopDesugar"):
+                continue
+            n_loops += 1
+            loop_body = m["arms"][0]["body"]
+            inner_lets = {st["pat"]["hid"] for st in walk(loop_body) if st.get("k") == "Let" and st["pat"].get("k") == "Binding"}
+            fills = {}
+            for c in walk(loop_body):
+                if c.get("k") == "MethodCall" and c["method"] in ACCUM:
+                    rv = peel(c["recv"])
+                    if rv.get("k") == "Path" and rv.get("res", {}).get("r") == "local":
+                        h = rv["res"]["hid"]
+                        if h in lets and h not in inner_lets:
+                            fills.setdefault(h, []).append(c)
+            for c in walk(loop_body):
+                if c.get("k") == "Assign":
+                    l = peel(c["lhs"])
+                    # `buf = iter.collect()` is itself a reset+fill: nothing to check for it
+                    if l.get("k") == "Path" and l.get("res", {}).get("hid") in fills:
+                        pass
+            for h, fl in fills.items():
+                name = lets[h]["pat"]["name"]
+                # all occurrences of the local inside the loop
+                occ = [x for x in walk(loop_body) if x.get("k") == "Path" and x.get("res", {}).get("hid") == h]
+                mut_recv = set()
+                for c in walk(loop_body):
+                    if c.get("k") == "MethodCall" and c["method"] in ACCUM + RESET + ("reserve", "len", "is_empty", "capacity"):
+                        rv = peel(c["recv"])
+                        if rv.get("k") == "Path" and rv.get("res", {}).get("hid") == h:
+                            mut_recv.add(id(rv))
+                reads = [x for x in occ if id(x) not in mut_recv and not _is_assign_target(loop_body, x)]
+                if not reads:
+                    continue  # accumulator: only filled here, consumed after the loop
+                n_scratch += 1
+                resets = []
+                for c in walk(loop_body):
+                    if c.get("k") == "MethodCall" and c["method"] in RESET:
+                        rv = peel(c["recv"])
+                        if rv.get("k") == "Path" and rv.get("res", {}).get("hid") == h:
+                            resets.append(c)
+                    if c.get("k") == "Assign":
+                        l = peel(c["lhs"])
+                        if l.get("k") == "Path" and l.get("res", {}).get("hid") == h:
+                            resets.append(c)
+                first_fill = min(fl, key=lambda x: (x["sp"][0], x["sp"][1]))
+                ok = any(uncond_before(loop_body, rs_, first_fill)[0] for rs_ in resets)
+                r.ob(ok, {"fn": fn["path"], "buffer": name, "filled_and_read_in_loop": True, "reset_each_iteration": ok})
+                if not ok:
+                    r.violate("%s | scratch %s" % (fn["path"], name), F.loc(fn, first_fill),
+                              "buffer `%s` is declared outside the loop, filled and consumed inside it, but not emptied at the top of every iteration: the items of earlier iterations are emitted again with each later one" % name)
+    r.count("loops", n_loops)
+    r.count("scratch_buffers", n_scratch)
+    return r
+
+
+def _is_assign_target(root, node):
+    for c in walk(root):
+        if c.get("k") == "Assign" and peel(c["lhs"]) is node:
+            return True
+    return False
